@@ -648,6 +648,7 @@ def run(ctx):
 
     # ================================================================ derived solvers (oracle only)
     derived_checks(ctx, thorough)
+    derived_correspondence(ctx, thorough, PRE)
     ctx.notes.append("largest observed/tolerance ratios: %s" % json.dumps({k_: round(v, 6) for k_, v in worst.items()}))
     ctx.trusted += ["mpmath (50 digits) / fractions.Fraction oracle arithmetic",
                     "scripted numpy RandomState subclass for standard_normal; Riccati gamma observed through a sys.setprofile return hook"]
@@ -677,6 +678,7 @@ NNASH_CLOSED_LOOP_MAX = 0.95  # nnash compared only if sqrt(beta)(A - B1F1 - B2F
 # kinds that fail on the pinned tree because of genuine defects found while calibrating
 FINDING_KINDS = ("nnash_premature_stop",)
 
+CORR = {"rblq": [], "nnash": [], "lqmarkov": []}   # problems of the derived checks, re-used by the correspondence
 WORST = {}   # kind -> worst observed/tolerance ratio seen in the last derived_checks run
 
 
@@ -981,6 +983,7 @@ def _check_rblq(ctx, qe, rng, idx):
     ctx.count("rblq:R=%s" % ("singular" if singular else "pd"))
     ctx.count("rblq:rho(A)%s1" % ("<" if rho < 1 else ">="))
     inp = {"fn": "RBLQ", "Q": Q, "R": R, "A": A, "B": B, "C": C, "beta": beta, "theta": theta}
+    CORR["rblq"].append((n, k, j, Q, R, A, B, C, beta, theta))
     ctx.case(("rblq", Q, R, A, B, C, beta, theta), nontrivial=True,
              sample={"fn": "RBLQ", "n": n, "k": k, "j": j, "beta": beta, "theta": theta, "A": A})
 
@@ -1160,6 +1163,7 @@ def _check_nnash(ctx, qe, rng, idx):
     ctx.count("nnash:rho(A)%s1" % ("<" if rho < 1 else ">="))
     ctx.case(("nnash", beta) + mats, nontrivial=True,
              sample={"fn": "nnash", "n": n, "k1": k1, "k2": k2, "beta": beta, "cross": cross, "A": A})
+    CORR["nnash"].append((n, k1, k2, mats, beta))
     _nnash_solve_and_verify(ctx, qe, mats, beta, "nnash_best_response")
 
 
@@ -1283,6 +1287,7 @@ def _check_lqmarkov(ctx, qe, rng, idx):
     ctx.case(("lqmarkov", m, Pi, Q, R, A, B, C, N, beta), nontrivial=True,
              sample={"fn": "LQMarkov", "m": m, "n": n, "k": k, "beta": beta, "Pi": Pi, "N": N})
 
+    CORR["lqmarkov"].append((m, n, k, jdim if with_C else 1, Pi, [(Q, R, A, B, C, N)] * m, beta))
     rep = lambda X: None if X is None else [X.copy() for _ in range(m)]     # noqa
     try:
         Ps, ds, Fs = qe.LQMarkov(Pif, rep(Qf), rep(Rf), rep(Af), rep(Bf), Cs=rep(Cf), Ns=rep(Nf),
@@ -1326,6 +1331,8 @@ def derived_checks(ctx, thorough):
     import warnings
     import quantecon as qe
     WORST.clear()
+    for v_ in CORR.values():
+        del v_[:]
     rng = ctx.rng
     scale = 4 if thorough else 1
     with warnings.catch_warnings():
@@ -1339,6 +1346,173 @@ def derived_checks(ctx, thorough):
             for i in range(25 * scale):
                 _check_lqmarkov(ctx, qe, rng, i)
     ctx.notes.append("derived solvers, largest observed/tolerance ratios: %s" % json.dumps({k_: (round(v, 6) if v == v and v != float("inf") else str(v)) for k_, v in WORST.items()}))
+
+
+# ====================================================================== derived solvers: correspondence with coq/C07/ModelDerived.v
+IMPORTS_D = "From QE Require Import Base.LinAlg Base.Gauss C06.Model C07.Model C07.ModelDerived."
+
+
+def _local_hook(fn, funcname, names):
+    """run fn(); return (result or exception, locals `names` of the frame of `funcname` at its return event)"""
+    rec = {}
+
+    def prof(frame, event, arg):
+        if event == "return" and frame.f_code.co_name == funcname:
+            for nm in names:
+                if nm in frame.f_locals:
+                    v = frame.f_locals[nm]
+                    rec[nm] = np.array(v, dtype=float).copy() if isinstance(v, np.ndarray) else v
+    sys.setprofile(prof)
+    try:
+        try:
+            out = fn()
+        except Exception as e:     # noqa
+            out = e
+    finally:
+        sys.setprofile(None)
+    return out, rec
+
+
+def _zero(r, c):
+    return [[Fraction(0)] * c for _ in range(r)]
+
+
+def derived_correspondence(ctx, thorough, PRE):
+    import warnings
+    import quantecon as qe
+    import quantecon._matrix_eqn as me
+    rng = ctx.rng
+    f3 = lambda Ms: "[" + "; ".join(flist2(np.atleast_2d(M).tolist()) for M in Ms) + "]"
+    with warnings.catch_warnings():
+        warnings.simplefilter("ignore")
+        # ---------------- LQMarkov: Riccati system + Fs + ds (identical regimes from the oracle part + heterogeneous regimes)
+        probs = list(CORR["lqmarkov"])[: (16 if thorough else 5)]
+        for t in range(24 if thorough else 8):
+            m = rng.choice((2, 2, 3)); n = rng.choice((1, 2, 3)); k = rng.choice((1, 2)); jd = rng.choice((1, 2))
+            regs = []
+            for i in range(m):
+                A, rho, (B,) = _gen_AB(rng, n, (k,), 0.3, 0.9)
+                Q, R, N, _s = _gen_cost(rng, n, k, rho, with_N=rng.random() < 0.6, allow_singular=False)
+                C = _mat(rng, n, jd, 1, (1, 2, 4), zero_p=0.2)
+                regs.append((Q, R, A, B, C, N))
+            probs.append((m, n, k, jd, _gen_Pi(rng, m), regs, rng.choice((Fraction(9, 10), Fraction(3, 4), Fraction(1, 2)))))
+        cases, meta = [], []
+        mk_tol = float(inspect.signature(me.solve_discrete_riccati_system).parameters["tolerance"].default)
+        mk_max = int(inspect.signature(qe.LQMarkov.stationary_values).parameters["max_iter"].default)
+        for (m, n, k, jd, Pi, regs, beta) in probs:
+            Qs = [_f(r[0]) for r in regs]; Rs = [_f(r[1]) for r in regs]; As = [_f(r[2]) for r in regs]; Bs = [_f(r[3]) for r in regs]
+            Cs = [_f(r[4]) if r[4] is not None else np.zeros((n, jd)) for r in regs]
+            Ns = [_f(r[5]) if r[5] is not None else np.zeros((k, n)) for r in regs]
+            hetero = any(r != regs[0] for r in regs)
+            out, rec = _local_hook(lambda: qe.LQMarkov(_f(Pi), Qs, Rs, As, Bs, Cs=Cs, Ns=Ns, beta=float(beta)).stationary_values(),
+                                   "solve_discrete_riccati_system", ("iteration",))
+            its = rec.get("iteration", 10 ** 9)
+            ctx.count("corr_lqmarkov:%s" % ("heterogeneous" if hetero else "identical"))
+            if isinstance(out, Exception) or its > 160:
+                ctx.count("corr_lqmarkov:skipped(%s)" % ("raised" if isinstance(out, Exception) else "slow"))
+                continue
+            Ps, ds, Fs = out
+            ctx.case(("corr_lqmarkov", m, str(Pi), str(regs), str(beta)), nontrivial=True)
+            cases.append(tup(natlit(m), natlit(n), natlit(k), natlit(jd), f1(float(beta)), flist2(_f(Pi).tolist()),
+                             f3(As), f3(Bs), f3(Cs), f3(Qs), f3(Rs), f3(Ns), f3(Ps), f3(Fs), flist([float(x) for x in ds])))
+            meta.append({"fn": "LQMarkov.stationary_values", "m": m, "Pi": Pi, "regimes": regs, "beta": beta})
+        pre = PRE + "Definition MKTOL : float := %s.\nDefinition MKMAX : Z := %s.\n" % (f1(mk_tol), zl(mk_max))
+        ok = ("fun c => let '(m, n, k, jj, beta, Pi, As, Bs, Cs, Qs, Rs, Ns, Ps, Fs, ds) := c in "
+              "match solve_discrete_riccati_system m n k beta Pi As Bs Qs Rs Ns MKTOL MKMAX with "
+              "| MkOk _ Ps' => list_all2 (Fss_close STOL) Ps' Ps && "
+              "   match otab m (mk_F m n k beta Pi As Bs Qs Ns Ps'), mk_ds m n jj beta Pi Cs Ps' with "
+              "   | Some Fs', Some ds' => list_all2 (Fss_close STOL) Fs' Fs && Fs_close STOL ds' ds | _, _ => false end "
+              "| _ => false end")
+        ty = ("nat * nat * nat * nat * float * list (list float) * list (list (list float)) * list (list (list float)) * list (list (list float)) * "
+              "list (list (list float)) * list (list (list float)) * list (list (list float)) * list (list (list float)) * list (list (list float)) * list float")
+        bad = ctx.coq_check("lqmarkov_float", IMPORTS_D, ty, ok, cases, chunk=1, preamble=pre)
+        for i in bad:
+            ctx.mismatch("C07.ModelDerived.solve_discrete_riccati_system/mk_F/mk_ds (NumF) vs LQMarkov.stationary_values", meta[i])
+
+        # ---------------- nnash: sweep iterates 1..3 (frame locals at the ValueError) and the converged result
+        cases, meta, full, fmeta = [], [], [], []
+        for (n, k1, k2, mats, beta) in list(CORR["nnash"])[: (40 if thorough else 12)]:
+            fm = [_f(M) for M in mats]
+            sb = np.sqrt(float(beta))
+            scaled = [sb * fm[0], sb * fm[1], sb * fm[2]] + fm[3:]
+            lits = [flist2(np.atleast_2d(M).tolist()) for M in scaled]
+            base = {"fn": "nnash", "beta": beta}
+            base.update(dict(zip(_NNASH_NAMES, mats)))
+            for it in (1, 2, 3):
+                out, rec = _local_hook(lambda: qe.nnash(*fm, beta=float(beta), max_iter=it), "nnash", ("F1", "F2", "P1", "P2"))
+                if not all(nm in rec for nm in ("F1", "F2", "P1", "P2")) or not all(np.all(np.isfinite(rec[nm])) for nm in rec):
+                    ctx.count("corr_nnash:iterate_not_observed"); continue
+                cases.append(tup(natlit(n), natlit(k1), natlit(k2), *lits, natlit(it),
+                                 *[flist2(np.atleast_2d(rec[nm]).tolist()) for nm in ("F1", "F2", "P1", "P2")]))
+                meta.append(dict(base, max_iter=it))
+                ctx.case(("corr_nnash", it, str(mats), str(beta)), nontrivial=True); ctx.count("corr_nnash:sweeps=%d" % it)
+            try:
+                F1, F2, P1, P2 = qe.nnash(*fm, beta=float(beta))
+            except Exception:     # noqa
+                ctx.count("corr_nnash:full_run_raised"); continue
+            inf1 = flist2([[math.inf] * n for _ in range(k1)]); inf2 = flist2([[math.inf] * n for _ in range(k2)])
+            full.append(tup(natlit(n), natlit(k1), natlit(k2), *lits, inf1, inf2,
+                            *[flist2(np.atleast_2d(M).tolist()) for M in (F1, F2, P1, P2)]))
+            fmeta.append(base)
+            ctx.case(("corr_nnash_full", str(mats), str(beta)), nontrivial=True); ctx.count("corr_nnash:converged_run")
+        M13 = " * ".join(["list (list float)"] * 13)
+        nn_pre = pre + ("Fixpoint nn_iter (it n k1 k2 : nat) (A B1 B2 R1 R2 Q1 Q2 S1 S2 W1 W2 M1 M2 F1 F2 P1 P2 : list (list float)) :=\n"
+                        "  match it with O => Some (F1, F2, P1, P2) | S i => match nnash_sweep n k1 k2 A B1 B2 R1 R2 Q1 Q2 S1 S2 W1 W2 M1 M2 P1 P2 with\n"
+                        "    | Some (a, b, c, d) => nn_iter i n k1 k2 A B1 B2 R1 R2 Q1 Q2 S1 S2 W1 W2 M1 M2 a b c d | None => None end end.\n"
+                        "Definition NNTOL : float := %s.\n" % f1(float(inspect.signature(qe.nnash).parameters["tol"].default)))
+        ok = ("fun c => let '(n, k1, k2, A, B1, B2, R1, R2, Q1, Q2, S1, S2, W1, W2, M1, M2, it, F1, F2, P1, P2) := c in "
+              "match nn_iter it n k1 k2 A B1 B2 R1 R2 Q1 Q2 S1 S2 W1 W2 M1 M2 [] [] (mzero n n) (mzero n n) with "
+              "| Some (a, b, c', d) => Fss_close VTOL a F1 && Fss_close VTOL b F2 && Fss_close VTOL c' P1 && Fss_close VTOL d P2 | None => false end")
+        bad = ctx.coq_check("nnash_sweeps_float", IMPORTS_D, "nat * nat * nat * %s * nat * list (list float) * list (list float) * list (list float) * list (list float)" % M13,
+                            ok, cases, chunk=6, preamble=nn_pre)
+        for i in bad:
+            ctx.mismatch("C07.ModelDerived.nnash_sweep iterated (NumF) vs nnash frame locals after max_iter sweeps", meta[i])
+        ok = ("fun c => let '(n, k1, k2, A, B1, B2, R1, R2, Q1, Q2, S1, S2, W1, W2, M1, M2, I1, I2, F1, F2, P1, P2) := c in "
+              "match nnash_loop n k1 k2 A B1 B2 R1 R2 Q1 Q2 S1 S2 W1 W2 M1 M2 1000 NNTOL I1 I2 (mzero n n) (mzero n n) with "
+              "| Some (Some (a, b, c', d)) => Fss_close (0x1p-20)%float a F1 && Fss_close (0x1p-20)%float b F2 && Fss_close (0x1p-20)%float c' P1 && Fss_close (0x1p-20)%float d P2 | _ => false end")
+        bad = ctx.coq_check("nnash_loop_float", IMPORTS_D, "nat * nat * nat * %s * list (list float) * list (list float) * list (list float) * list (list float) * list (list float) * list (list float)" % M13,
+                            ok, full, chunk=3, preamble=nn_pre)
+        for i in bad:
+            ctx.mismatch("C07.ModelDerived.nnash_loop (NumF, 1e-6) vs nnash", fmeta[i])
+
+        # ---------------- RBLQ: d_operator, b_operator, robust_rule
+        ops, opmeta, rr, rrmeta = [], [], [], []
+        for (n, k, j, Q, R, A, B, C, beta, theta) in list(CORR["rblq"])[: (40 if thorough else 12)]:
+            Qf, Rf, Af, Bf, Cf = _f(Q), _f(R), _f(A), _f(B), _f(C)
+            rb = qe.RBLQ(Qf, Rf, Af, Bf, Cf, float(beta), float(theta))
+            base = {"fn": "RBLQ", "Q": Q, "R": R, "A": A, "B": B, "C": C, "beta": beta, "theta": theta}
+            par = [natlit(n), natlit(k), natlit(j), f1(float(beta)), f1(float(theta))] + [flist2(M.tolist()) for M in (Qf, Rf, Af, Bf, Cf)]
+            for t in range(2):
+                V = np.array([[rng.randint(-4, 4) / 4.0 for _ in range(n)] for _ in range(n)])
+                P = V.T @ V * (0.25 if t else 1.0)
+                try:
+                    dP = rb.d_operator(P); Fb, Pb = rb.b_operator(P)
+                except Exception:     # noqa
+                    ctx.count("corr_rblq:operator_raised"); continue
+                ops.append(tup(*par, flist2(P.tolist()), flist2(dP.tolist()), flist2(Fb.tolist()), flist2(Pb.tolist())))
+                opmeta.append(dict(base, P=P.tolist()))
+                ctx.case(("corr_rblq_ops", str(base), str(P.tolist())), nontrivial=True); ctx.count("corr_rblq:operators")
+            (res), rec = riccati_hook(lambda: rb.robust_rule())
+            if "gamma" not in rec:
+                ctx.count("corr_rblq:gamma_not_observed"); continue
+            Fr, Kr, Pr = res
+            rr.append(tup(*par, f1(rec["gamma"]), f1(float(np.sqrt(float(beta)))), flist2(np.atleast_2d(Fr).tolist()),
+                          flist2(np.atleast_2d(Kr).tolist()), flist2(np.atleast_2d(Pr).tolist())))
+            rrmeta.append(dict(base, gamma=rec["gamma"]))
+            ctx.case(("corr_rblq_rule", str(base)), nontrivial=True); ctx.count("corr_rblq:robust_rule")
+        P5 = "nat * nat * nat * float * float * " + " * ".join(["list (list float)"] * 5)
+        ok = ("fun c => let '(n, k, j, beta, theta, Q, R, A, B, C, P, dP, Fb, Pb) := c in "
+              "match d_operator n j theta C P, b_operator n k beta Q R A B P with "
+              "| Some d, Some (F, P') => Fss_close VTOL d dP && Fss_close VTOL F Fb && Fss_close VTOL P' Pb | _, _ => false end")
+        bad = ctx.coq_check("rblq_operators_float", IMPORTS_D, P5 + " * list (list float) * list (list float) * list (list float) * list (list float)", ok, ops, chunk=8, preamble=pre)
+        for i in bad:
+            ctx.mismatch("C07.ModelDerived.d_operator/b_operator (NumF) vs RBLQ.d_operator/b_operator", opmeta[i])
+        ok = ("fun c => let '(n, k, j, beta, theta, Q, R, A, B, C, gamma, sb, F, K, P) := c in "
+              "match robust_rule n k j beta theta Q R A B C RTOL RMAX gamma sb with "
+              "| Some (F', K', P') => Fss_close STOL F' F && Fss_close STOL K' K && Fss_close STOL P' P | None => false end")
+        bad = ctx.coq_check("rblq_robust_rule_float", IMPORTS_D, P5 + " * float * float * list (list float) * list (list float) * list (list float)", ok, rr, chunk=3, preamble=pre)
+        for i in bad:
+            ctx.mismatch("C07.ModelDerived.robust_rule (NumF, stacked LQ through the C06 doubling model) vs RBLQ.robust_rule", rrmeta[i])
 
 
 def replay(data):
